@@ -142,6 +142,14 @@ func (g *Generator) snippet(a *asm, kind int, slot uint64) {
 		a.op(opSELFDESTRUCT)
 		a.op(opJUMPDEST)
 		a.b[pos] = byte(len(a.b) - 1)
+	case 22: // a plain transfer (no calldata) makes the contract destroy itself in favour of the caller
+		a.op(opCALLDATASIZE)
+		a.push(0)
+		pos := len(a.b) - 1
+		a.op(opJUMPI)
+		a.op(opCALLER, opSELFDESTRUCT)
+		a.op(opJUMPDEST)
+		a.b[pos] = byte(len(a.b) - 1)
 	case 12: // environment reads -> slot
 		ops := []byte{opTIMESTAMP, opNUMBER, opCOINBASE, opCHAINID, opGASPRICE, opORIGIN, opCALLER, opADDRESS}
 		a.op(ops[g.r.Intn(len(ops))]).push(slot).op(opSSTORE)
@@ -229,7 +237,10 @@ func (g *Generator) program() ([]byte, []byte) {
 		n := g.r.Range(2, 6)
 		for i := 0; i < n; i++ {
 			k := g.r.Intn(22)
-			if len(rt.b) > 180 && (k == 10 || k == 11 || k == 14) {
+			if i == 0 && g.r.Chance(0.08) {
+				k = 22
+			}
+			if len(rt.b) > 180 && (k == 10 || k == 11 || k == 14 || k == 22) {
 				k = 0 // jump targets are one byte
 			}
 			if k == 20 && i < n-1 {
